@@ -52,6 +52,8 @@ def cli_run(k, spec):
             "--include_noise_baseline_features", c.get("noise", "False")] + list(c.get("extra_args", []))
     env = dict(os.environ)
     env["PYTHONHASHSEED"] = str(spec["hashseed"])
+    for k in ("OMP_NUM_THREADS", "OPENBLAS_NUM_THREADS", "MKL_NUM_THREADS"):   # many processes side by side
+        env[k] = "1"
     t0 = time.time()
     try:
         p = subprocess.run(argv, cwd=d, env=env, stdout=subprocess.PIPE, stderr=subprocess.PIPE, text=True,
